@@ -101,6 +101,9 @@ class QPlugin:
 
     def shutdown(self):
         for j in list(self.running_jobs.values()):
+            if j.done:
+                # timed out, killed or finished over another connection: nothing to redo
+                continue
             logger.debug("reschedule %s" % j)
             self.workq.pushjob(j)
 
